@@ -15,6 +15,7 @@ Scenario (JSON):
    {'kind': 'sighting', 'svc': k, 'which': ['ptr','srv','txt','addr'], 'ttl_mode': 'full'|'zero'}   peer announces the host's records
    {'kind': 'raw', 'hex': ..., ...}                       arbitrary datagram (C15/C16)
    {'kind': 'unregister', 'svc': k} | {'kind': 'close'}  (C08/C17)
+ 'pre_updates': [{'svc': k, 'set': {field: value}}]        async_update_service calls made after registration, before settling (C08)
 """
 from __future__ import annotations
 
@@ -72,7 +73,9 @@ async def advance_exact(w: sim.World, base_ms: float, ms: float) -> None:
 
 class RespRun:
     def __init__(self, scenario: Dict[str, Any]) -> None:
-        self.sc = scenario
+        import copy
+
+        self.sc = copy.deepcopy(scenario)      # 'pre_updates' rewrite the service descriptions: sc['services'] is the registry as it is
         self.model = rp.ResponderModel()
         self.queries: List[Dict[str, Any]] = []
         self.sightings: Dict[Tuple, List[Tuple[float, float, int]]] = {}
@@ -180,6 +183,18 @@ class RespRun:
             await task
             self.infos.append(info)
             self.model.register(d)
+        # the registry may have reached its state through updates (async_update_service with a fresh ServiceInfo)
+        for up in self.sc.get('pre_updates', []):
+            k = up['svc'] % len(self.sc['services'])
+            d = dict(self.sc['services'][k])
+            d.update(up['set'])
+            info = sim.make_service_info(d)
+            task = await host.azc.async_update_service(info)
+            await task
+            self.model.unregister(self.sc['services'][k]['name'])
+            self.model.register(d)
+            self.sc['services'][k] = d
+            self.infos[k] = info
         self.peer_listener = None
         if self.sc.get('peer'):
             from zeroconf.asyncio import AsyncServiceBrowser
